@@ -29,8 +29,8 @@ func Quiet() {
 
 // Controller records what an action asks its controller to do.
 type Controller struct {
-	Propagated []*pipeline.Event
-	Spawned    [][]string
+	Propagated  []*pipeline.Event
+	Spawned     [][]string
 	OnPropagate func(e *pipeline.Event)
 }
 
@@ -49,6 +49,9 @@ func (c *Controller) Spawn(parent *pipeline.Event, nodes []*insaneJSON.Node) {
 }
 func (c *Controller) IncMaxEventSizeExceeded(lvs ...string) {}
 
+// PipelineName is the pipeline name given to plugins (some plugins keep process-wide state per pipeline name).
+var PipelineName = "verif"
+
 // Params builds ActionPluginParams with a fresh metric controller.
 func Params(ctl pipeline.ActionPluginController, settings *pipeline.Settings) *pipeline.ActionPluginParams {
 	if settings == nil {
@@ -56,7 +59,7 @@ func Params(ctl pipeline.ActionPluginController, settings *pipeline.Settings) *p
 	}
 	return &pipeline.ActionPluginParams{
 		PluginDefaultParams: pipeline.PluginDefaultParams{
-			PipelineName:     "verif",
+			PipelineName:     PipelineName,
 			PipelineSettings: settings,
 			MetricCtl:        metric.NewCtl("verif", prometheus.NewRegistry(), time.Minute, 0),
 		},
@@ -69,7 +72,7 @@ func Params(ctl pipeline.ActionPluginController, settings *pipeline.Settings) *p
 type Started struct {
 	Plugin   pipeline.ActionPlugin
 	Config   pipeline.AnyConfig
-	Rejected bool   // config refused by decoding / cfg.Parse / the plugin's own Start validation
+	Rejected bool // config refused by decoding / cfg.Parse / the plugin's own Start validation
 	Reason   string
 }
 
